@@ -25,6 +25,32 @@ theorem Tr.step_hist' {S : Schema} {tr tr' : Tr} {s : Step} (hlen : tr.steps.len
     subst h
     simp [Tr.addStep, hlen]
 
+/-- growing keeps `maps` and `steps` the same length -/
+theorem Tr.Grows.maps_len {S : Schema} {tr tr' : Tr} (h : Tr.Grows S tr tr') :
+    tr.maps.length = tr.steps.length → tr'.maps.length = tr'.steps.length := by
+  induction h with
+  | refl => exact id
+  | @step tr tr1 tr' s hs _ ih =>
+    intro hl
+    apply ih
+    simp only [Tr.step] at hs
+    cases ha : S.apply s tr.doc with
+    | error e => rw [ha] at hs; simp at hs
+    | ok d =>
+      rw [ha] at hs
+      simp only [Except.ok.injEq] at hs
+      subst hs
+      simp [Tr.addStep, hl]
+
+/-- an invariant kept by every guarded recorded step holds of the final document -/
+theorem inv_fin_of_hist (S : Schema) (I : Node → Prop) (G : Step → Node → Node → Prop)
+    (hstep : ∀ s d d', I d → S.apply s d = .ok d' → G s d d' → I d') :
+    ∀ (hist : List (Step × Node)) (fin : Node), I (histNext hist fin) → ReplayChain S hist fin →
+      HistAll G hist fin → I fin
+  | [], _, hI, _, _ => hI
+  | (s, d) :: rest, fin, hI, ⟨ha, hr⟩, ⟨hg, hG⟩ =>
+    inv_fin_of_hist S I G hstep rest fin (hstep s d _ hI ha hg) hr hG
+
 /-- `PSt.stepAll`: what it appends to the recorded history -/
 theorem PSt.stepAll_hist (S : Schema) : ∀ (ss : List Step) (st st' : PSt),
     st.tr.steps.length = st.tr.docs.length → st.stepAll S ss = .ok st' →
@@ -61,17 +87,19 @@ theorem histAll_stepsHist_mem (S : Schema) (P : Step → Prop) : ∀ (sts : List
     · trivial
 
 theorem clearRm_isRm (S : Schema) (pty : TypeId) : ∀ (kids : List Node) (q cur : Nat),
-    ∀ s ∈ clearRm S pty kids q cur, ∃ a b x, s = Step.removeMark a b x
+    ∀ s ∈ clearRm S pty kids q cur, ∃ a b x, s = Step.removeMark a b x ∧ ∃ c ∈ kids, x ∈ badMarks S pty c.marks
   | [], _, _, s, hs => by simp [clearRm] at hs
   | c :: cs, q, cur, s, hs => by
     unfold clearRm at hs
     split at hs
-    · exact clearRm_isRm S pty cs _ _ s hs
+    · obtain ⟨a, b, x, e, c', hc', hx⟩ := clearRm_isRm S pty cs _ _ s hs
+      exact ⟨a, b, x, e, c', by simp [hc'], hx⟩
     · rcases List.mem_append.mp hs with hs | hs
       · simp only [List.mem_map] at hs
-        obtain ⟨m, _, rfl⟩ := hs
-        exact ⟨_, _, _, rfl⟩
-      · exact clearRm_isRm S pty cs _ _ s hs
+        obtain ⟨m, hm, rfl⟩ := hs
+        exact ⟨_, _, _, rfl, c, by simp, hm⟩
+      · obtain ⟨a, b, x, e, c', hc', hx⟩ := clearRm_isRm S pty cs _ _ s hs
+        exact ⟨a, b, x, e, c', by simp [hc'], hx⟩
 
 /-- no child carries a mark the new type forbids ⇒ `clear_incompatible` records no `RemoveMarkStep` -/
 theorem clearRm_nil (S : Schema) (pty : TypeId) : ∀ (kids : List Node) (q cur : Nat),
@@ -110,10 +138,11 @@ theorem clearEdits_bmp (S : Schema) (pty : TypeId) : ∀ (kids : List Node) (q c
       · exact clearEdits_bmp S pty cs _ _ e he
 
 /-- the shapes of the steps `set_block_type` (to a plain type) records, with the document each is applied to:
-    a `RemoveMarkStep`; a `ReplaceStep` with a closed payload without high surrogates; the retype step
-    of the non-leaf node found at its start -/
-def SbtShape (s : Step) (d : Node) : Prop :=
-  (∃ a b x, s = Step.removeMark a b x) ∨
+    a `RemoveMarkStep` of a mark in `bad` (the marks of children of visited textblocks that the new type
+    forbids); a `ReplaceStep` with a closed payload without high surrogates; the retype step of the
+    non-leaf node found at its start -/
+def SbtShape (bad : Mark → Prop) (s : Step) (d : Node) : Prop :=
+  (∃ a b x, s = Step.removeMark a b x ∧ bad x) ∨
   (∃ a b c, s = Step.replace a b ⟨c, 0, 0⟩ false ∧ (ftoks c).all Tok.noHigh = true) ∨
   (∃ p node ty a m, s = retypeStep p (p + node.size) (.elem ty a m []) ∧ d.nodeAt p = .ok (some node) ∧
     node.isLeaf = false)
